@@ -8,6 +8,7 @@
 mod common;
 mod deleg;
 mod fmtleg;
+mod fmtspecs;
 mod history;
 mod jsonleg;
 mod prng;
@@ -761,6 +762,10 @@ const REQUIRED_PROBES: &[&str] = &[
     "json_api_via_value",
     "json_reader_behind_bufreader",
     "history_before_checked_operation",
+    "fmt_with_width_or_alternate_flags",
+    "fmt_flags_alternate",
+    "fmt_flags_zero_width",
+    "fmt_flags_plus_zero_width",
     "de_in_place_agrees",
     "rt_serde_value_deserializers_ok",
     "toml_rt_ok",
